@@ -8,7 +8,7 @@ import (
 
 func init() {
 	register(&CheckDef{ID: "C06", Level: "exploration", Engine: "A", Draw: drawC06,
-		Rule: "2-8 concurrent clients with pairwise different ClientHellos (a unique marker cipher each) and pairwise different HTTP/2 preambles, same or different peer addresses (including identical ip:port reused by a later connection), HTTP/1.1 keep-alive sequences and multiplexed HTTP/2 requests, some clients resetting or closing mid-session, handlers optionally parked at a yielding injector so that handlers of different connections overlap in every order. Oracle: every (tag -> JA3, JA4, HTTP/2 fingerprint) at the back-end equals the reference value of the tag's own connection. Non-trivial: requests of >= 2 different connections reached the back-end. Distinct: distinct controller action-label sequences."})
+		Rule: "2-8 concurrent clients with pairwise different ClientHellos (a unique marker cipher each) and pairwise different HTTP/2 preambles, same or different peer addresses (including identical ip:port reused by a later connection), HTTP/1.1 keep-alive sequences and multiplexed HTTP/2 requests, some clients resetting or closing mid-session, handlers optionally parked at a yielding injector so that handlers of different connections overlap in every order. Oracle: every (tag -> JA3, JA4, HTTP/2 fingerprint) at the back-end equals the reference value of the tag's own connection. Race mode (-race build, four Ps, no parking inside the harness): the controller offers a weighted 'burst' action - every enabled delivery and client step in one step - so that goroutines of different connections run side by side; a race report whose two stacks both have a frame of fingerproxy is a violation (unsynchronised state shared between connections). Non-trivial: requests of >= 2 different connections reached the back-end. Distinct: distinct controller action-label sequences."})
 }
 
 type c06Aux struct {
@@ -69,6 +69,13 @@ func drawC06(t *rapid.T) *Case {
 	}
 	p.YieldInjector = drawBool(t, "yield", 40)
 	p.Fences = drawBool(t, "fences", 30)
+	if raceMode() {
+		// -race worker: no parking inside the harness (its locks would order the goroutines of
+		// different connections); instead the controller offers steps that advance every
+		// connection at once, so that their goroutines run unordered and the race detector can
+		// see unsynchronised state shared between connections
+		p.YieldInjector, p.Fences, p.Burst = false, false, true
+	}
 	p.BackendKeepAlive = drawBool(t, "beka", 30)
 	p.Args = drawCommonArgs(t)
 	if drawBool(t, "prioflood", 3) {
